@@ -43,13 +43,14 @@ Fixpoint pokeN (l : bytes) (pos : N) (c : N) : bytes :=
 
 (* result of a method: normal return, C++ exception (the heap as left behind by the code
    that ran before the throw; `this` fields are unchanged), or a read/write outside every
-   modelled object (Undef: never produced from a well-formed state — see SbufProofs) *)
+   modelled object (Undef: never produced from a well-formed state — see SbufProofs).
+   Both Ok and Throw carry the heap and the `this` object as the code left them. *)
 Inductive res (A : Type) : Type :=
 | Ok (a : A)
-| Throw (h : heap)
+| Throw (a : A)
 | Undef.
 Arguments Ok {A} a.
-Arguments Throw {A} h.
+Arguments Throw {A} a.
 Arguments Undef {A}.
 
 Inductive src := SLit (w : bytes) | SPtr (id : nat) (off : N).
@@ -94,12 +95,12 @@ Definition sb_spaceSize (h : heap) (s : sbuf) : N := mb_spaceSize (getb h (sstor
 
 (* SBuf::reAlloc(newsize) *)
 Definition reAlloc (h : heap) (s : sbuf) (newsize : N) : res (heap * sbuf) :=
-  if maxSize <? newsize then Throw h else
+  if maxSize <? newsize then Throw (h, s) else
   let '(h1, id) := mb_new h newsize in
   let h1 := lock h1 id in                                     (* MemBlob::Pointer newbuf *)
   match (if 0 <? slen s then mb_append h1 id (SPtr (sstore s) (soff s)) (slen s) else Ok h1) with
   | Ok h2 => Ok (unlock h2 (sstore s), mkSBuf id 0 (slen s))  (* store_ = newbuf; off_ = 0 *)
-  | Throw h2 => Throw (unlock h2 id)
+  | Throw h2 => Throw (unlock h2 id, s)
   | Undef => Undef
   end.
 
@@ -110,7 +111,7 @@ Definition cow (h : heap) (s : sbuf) (newsize0 : N) : res (heap * sbuf) :=
   let b := getb h id in
   if blocks b =? 1 then
     (* store_->syncSize(off_ + length()) *)
-    if bsize b <? soff s + slen s then Throw h else
+    if bsize b <? soff s + slen s then Throw (h, s) else
     let h1 := set_data h id (takeN (soff s + slen s) (bdata b)) in
     let availableSpace := bcap b - (soff s + slen s) in
     let neededSpace := newsize - slen s in
@@ -123,7 +124,7 @@ Definition cow (h : heap) (s : sbuf) (newsize0 : N) : res (heap * sbuf) :=
 
 (* SBuf::rawSpace(minSpace) *)
 Definition rawSpace (h : heap) (s : sbuf) (minSpace : N) : res (heap * sbuf) :=
-  if sub32 maxSize minSpace <? slen s then Throw h else
+  if sub32 maxSize minSpace <? slen s then Throw (h, s) else
   if mb_canAppend (getb h (sstore s)) (soff s + slen s) minSpace then Ok (h, s)
   else cow h s (add32 minSpace (slen s)).
 
@@ -133,10 +134,10 @@ Definition lowAppend (h : heap) (s : sbuf) (p : src) (n : N) : res (heap * sbuf)
   | Ok (h1, s1) =>
       match mb_append h1 (sstore s1) p n with
       | Ok h2 => Ok (h2, mkSBuf (sstore s1) (soff s1) (slen s1 + n))
-      | Throw h2 => Throw h2
+      | Throw h2 => Throw (h2, s1)
       | Undef => Undef
       end
-  | Throw h1 => Throw h1
+  | Throw a => Throw a
   | Undef => Undef
   end.
 
@@ -151,7 +152,7 @@ Definition with_locker {A} (h : heap) (s : sbuf) (p : src) (body : heap -> res (
     let id := sstore s in
     match body (lock h id) with
     | Ok (h1, a) => Ok (unlock h1 id, a)
-    | Throw h1 => Throw (unlock h1 id)
+    | Throw (h1, a) => Throw (unlock h1 id, a)
     | Undef => Undef
     end
   else body h.
@@ -216,13 +217,13 @@ Definition sb_trim (h : heap) (s : sbuf) (R : bytes) (alias atBeginning atEnd : 
 
 (* SBuf::setAt(pos, toset) *)
 Definition sb_setAt (h : heap) (s : sbuf) (pos c : N) : res (heap * sbuf) :=
-  if negb (pos <? slen s) then Throw h else
+  if negb (pos <? slen s) then Throw (h, s) else
   match cow h s npos with
   | Ok (h1, s1) =>
       let d := bdata (getb h1 (sstore s1)) in
       if bsize (getb h1 (sstore s1)) <=? soff s1 + pos then Undef
       else Ok (set_data h1 (sstore s1) (pokeN d (soff s1 + pos) c), s1)
-  | Throw h1 => Throw h1
+  | Throw a => Throw a
   | Undef => Undef
   end.
 
@@ -255,10 +256,10 @@ Definition sb_toUpper (h : heap) (s : sbuf) := case_loop c_islower c_toupper (co
 
 (* SBuf::reserveCapacity / reserveSpace / reserve *)
 Definition sb_reserveCapacity (h : heap) (s : sbuf) (minCapacity : N) : res (heap * sbuf) :=
-  if maxSize <? minCapacity then Throw h else cow h s minCapacity.
+  if maxSize <? minCapacity then Throw (h, s) else cow h s minCapacity.
 Definition sb_reserveSpace (h : heap) (s : sbuf) (minSpace : N) : res (heap * sbuf) :=
-  if maxSize <? minSpace then Throw h else
-  if sub32 maxSize minSpace <? slen s then Throw h else
+  if maxSize <? minSpace then Throw (h, s) else
+  if sub32 maxSize minSpace <? slen s then Throw (h, s) else
   sb_reserveCapacity h s (add32 (slen s) minSpace).
 Definition sb_reserve (h : heap) (s : sbuf) (idealSpace minSpace maxCapacity : N) (allowShared : bool)
   : res (heap * sbuf) :=
@@ -272,7 +273,7 @@ Definition sb_reserve (h : heap) (s : sbuf) (idealSpace minSpace maxCapacity : N
 (* rawAppendStart(n); the caller stores w (|w| <= n) at the returned pointer; rawAppendFinish(ptr, |w|).
    RawShort: rawAppendStart returned normally although fewer than n bytes lie between the returned
    pointer and the end of the blob (the caller is entitled to write n bytes there). *)
-Inductive rawres := RawOk (h : heap) (s : sbuf) | RawShort (h : heap) (s : sbuf) | RawThrow (h : heap) | RawUndef.
+Inductive rawres := RawOk (h : heap) (s : sbuf) | RawShort (h : heap) (s : sbuf) | RawThrow (h : heap) (s : sbuf) | RawUndef.
 Definition sb_rawAppend (h : heap) (s : sbuf) (n : N) (w : bytes) : rawres :=
   match rawSpace h s n with
   | Ok (h1, s1) =>
@@ -280,13 +281,13 @@ Definition sb_rawAppend (h : heap) (s : sbuf) (n : N) (w : bytes) : rawres :=
       if bcap b - soff s1 - slen s1 <? n then RawShort h1 s1 else
       let a := lenN w in
       (* rawAppendFinish *)
-      if negb (mb_canAppend b (soff s1 + slen s1) a) then RawThrow h1 else
-      if N.min maxSize (bcap b - soff s1) <? slen s1 + a then RawThrow h1 else
+      if negb (mb_canAppend b (soff s1 + slen s1) a) then RawThrow h1 s1 else
+      if N.min maxSize (bcap b - soff s1) <? slen s1 + a then RawThrow h1 s1 else
       if bsize b <? soff s1 + slen s1 then RawUndef else
       (* len_ = newSize; store_->size = off_ + newSize : bytes w now lie at mem[off_+len_ ..) *)
       RawOk (set_data h1 (sstore s1) (takeN (soff s1 + slen s1) (bdata b) ++ w))
             (mkSBuf (sstore s1) (soff s1) (slen s1 + a))
-  | Throw h1 => RawThrow h1
+  | Throw (h1, s1) => RawThrow h1 s1
   | Undef => RawUndef
   end.
 
@@ -448,7 +449,7 @@ Definition init_state (nv : nat) : state :=
 Definition fin (st : state) (i : nat) (r : res (heap * sbuf)) : state * out :=
   match r with
   | Ok (h, s) => (mkState h (upd (vars st) i s), RVoid)
-  | Throw h => (mkState h (vars st), RThrow)
+  | Throw (h, s) => (mkState h (upd (vars st) i s), RThrow)
   | Undef => (st, RUndef)
   end.
 
@@ -522,20 +523,20 @@ Definition step (st : state) (o : op) : state * out :=
   | ORsq i ideal mn mx sh =>
       match sb_reserve alloc_cap h (getv st i) ideal mn mx sh with
       | Ok (h1, s1) => (mkState h1 (upd (vars st) i s1), RNum (sb_spaceSize h1 s1))
-      | Throw h1 => (mkState h1 (vars st), RThrow)
+      | Throw (h1, s1) => (mkState h1 (upd (vars st) i s1), RThrow)
       | Undef => (st, RUndef)
       end
   | ORaw i n w =>
       match sb_rawAppend alloc_cap h (getv st i) n w with
       | RawOk h1 s1 => (mkState h1 (upd (vars st) i s1), RVoid)
       | RawShort h1 s1 => (mkState h1 (upd (vars st) i s1), RShort)
-      | RawThrow h1 => (mkState h1 (vars st), RThrow)
+      | RawThrow h1 s1 => (mkState h1 (upd (vars st) i s1), RThrow)
       | RawUndef => (st, RUndef)
       end
   | OCst i =>
       match sb_c_str alloc_cap h (getv st i) with
       | Ok (h1, s1) => (mkState h1 (upd (vars st) i s1), RBytes (cstring (content h1 s1)))
-      | Throw h1 => (mkState h1 (vars st), RThrow)
+      | Throw (h1, s1) => (mkState h1 (upd (vars st) i s1), RThrow)
       | Undef => (st, RUndef)
       end
   | OQuery i q => (st, run_query st i q)
@@ -546,5 +547,18 @@ End Step.
 (* what an observer of the variables can see *)
 Definition sb_broken (h : heap) (s : sbuf) : bool :=
   let b := getb h (sstore s) in (bsize b <? soff s + slen s) || (bcap b <? bsize b).
-Definition first_broken (st : state) : option N :=
-  index_of (sb_broken (hp st)) (map (fun s => s) (vars st)) .
+Fixpoint first_broken_from (h : heap) (vs : list sbuf) (k : N) : option N :=
+  match vs with
+  | [] => None
+  | s :: r => if sb_broken h s then Some k else first_broken_from h r (k + 1)
+  end.
+Definition first_broken (st : state) : option N := first_broken_from (hp st) (vars st) 0.
+
+(* the allocator policy of harness/h_sbuf.cc (size classes of src/mem/old_api.cc memFindBufSizeType) *)
+Definition harness_alloc_cap (n : N) : N :=
+  if n <=? 32 then 32 else if n <=? 64 then 64 else if n <=? 128 then 128 else if n <=? 256 then 256
+  else if n <=? 512 then 512 else if n <=? 1024 then 1024 else if n <=? 2048 then 2048
+  else if n <=? 4096 then 4096 else if n <=? 8192 then 8192 else if n <=? 16384 then 16384
+  else if n <=? 32768 then 32768 else if n <=? 65536 then 65536 else n.
+Definition step_h : state -> op -> state * out := step harness_alloc_cap.
+Definition init_h : nat -> state := init_state harness_alloc_cap.
